@@ -40,7 +40,7 @@ def run(ctx):
   con = construct(cc)
   m = ctx.ix.module('config')
   stores = module_stores(prog, 'config')
-  ctx.expect_at_least('module-level stores of config.py', len(stores), 15)
+  ctx.expect_at_least('module-level stores of config.py', len(stores), 12)
   _, acc = store_accesses(prog, 'config')
   g = prog.cfg(cc)
 
